@@ -7,8 +7,9 @@ import (
 // C05.layout_*: the arithmetic facts about the mkfs-time layout that e2fsck cross-checks, decided over
 // buildGroupDescriptorsFromSuperblock for every superblock Create can hand to it.
 //
-// Symbolic: blockCount, blocksPerGroup, inodesPerGroup, reserved GDT blocks (0 or 256).
-// Case-split (structure): block size, flex_bg group size (0 = no flex_bg), descriptor size, group count.
+// Symbolic: blockCount, inodesPerGroup, reserved GDT blocks (0 or 256).
+// Case-split: block size, blocksPerGroup (symbolic blocksPerGroup makes blockCount/blocksPerGroup a
+// symbolic division that the solvers do not finish), flex_bg group size (0 = no flex_bg), descriptor size, group count.
 //
 // Domain = what Create computes from accepted parameters (ext4.go Create):
 //   blocksPerGroup in [256, min(8*blocksize, 65528)], multiple of 8
@@ -47,15 +48,14 @@ func c05HasBackup(g int) bool {
 	return false
 }
 
-func c05LayoutSB(bs uint32, flexSize uint64, gdSize uint16, groups int) *superblock {
-	bpg := vp.U32("blocksPerGroup")
+func c05LayoutSB(bs, bpg uint32, flexSize uint64, gdSize uint16, groups int) *superblock {
 	maxBPG := bs * 8
 	if maxBPG > 65528 {
 		maxBPG = 65528
 	}
-	vp.Assume(bpg >= 256)
-	vp.Assume(bpg <= maxBPG)
-	vp.Assume(bpg%8 == 0)
+	if bpg < 256 || bpg > maxBPG || bpg%8 != 0 {
+		panic("c05: blocksPerGroup outside the range Create accepts")
+	}
 	bc := vp.U64("blockCount")
 	vp.Assume(bc > uint64(groups-1)*uint64(bpg))
 	vp.Assume(bc <= uint64(groups)*uint64(bpg))
@@ -89,8 +89,8 @@ func c05LayoutSB(bs uint32, flexSize uint64, gdSize uint16, groups int) *superbl
 }
 
 // c05Layout: the library computes `groups` descriptors for this case.
-func c05Layout(bs uint32, flexSize uint64, gdSize uint16, groups int) {
-	sb := c05LayoutSB(bs, flexSize, gdSize, groups)
+func c05Layout(bs, bpg32 uint32, flexSize uint64, gdSize uint16, groups int) {
+	sb := c05LayoutSB(bs, bpg32, flexSize, gdSize, groups)
 	vp.Unwind(groups + 2)
 	vp.NoPanic()
 	gdt := buildGroupDescriptorsFromSuperblock(sb)
@@ -102,7 +102,6 @@ func c05Layout(bs uint32, flexSize uint64, gdSize uint16, groups int) {
 	if len(gdt.descriptors) != groups {
 		return
 	}
-	vp.Cover("descriptors built")
 
 	// (0) the on-disk format defines the group count as ceil((blockCount-firstDataBlock)/blocksPerGroup):
 	// e2fsck derives it from the superblock and demands inodeCount = inodesPerGroup*groups.
@@ -183,44 +182,51 @@ func c05Layout(bs uint32, flexSize uint64, gdSize uint16, groups int) {
 			}
 		}
 	}
-	b2u := func(ok bool) uint64 { return vp.IteU64(ok, 0, 1) }
 	for g := 0; g < groups; g++ {
 		d := gdt.descriptors[g]
 		vp.Assert(d.number == uint16(g), "descriptor number")
 		vp.Assert(d.size == gdSize, "descriptor size")
 		vp.Assert(uint64(d.freeInodes) == ipg, "all inodes of a fresh group are free")
-		var outside, foreign, onBackup, overlap uint64
 		for _, r := range []c05Region{bb[g], ib[g], it[g]} {
 			// (1) inside the filesystem
-			outside += b2u(r.lo >= fdb) + b2u(r.hi <= bc) + b2u(r.lo < r.hi)
+			vp.AssertUnless("KF-C05-2", !fits, r.lo >= fdb, "bitmaps and inode table not before the first data block")
+			vp.AssertUnless("KF-C05-2", !fits, r.hi <= bc, "bitmaps and inode table end inside the filesystem")
+			vp.AssertUnless("KF-C05-2", !fits, r.lo < r.hi, "no wrap-around")
 			// (2) without flex_bg: inside the own group
 			if flexSize == 0 {
-				foreign += b2u(r.lo >= groupReg[g].lo) + b2u(r.hi <= groupReg[g].hi)
+				vp.AssertUnless("KF-C05-2", !fits, r.lo >= groupReg[g].lo, "without flex_bg metadata starts in its own group")
+				vp.AssertUnless("KF-C05-2", !fits, r.hi <= groupReg[g].hi, "without flex_bg metadata ends in its own group")
 			}
 			// (4) not on a superblock/GDT backup (of any group)
 			for h := 0; h < groups; h++ {
 				if c05HasBackup(h) {
-					onBackup += b2u(c05Disjoint(r, backup[h]))
+					vp.AssertUnless("KF-C05-2", !fits, c05Disjoint(r, backup[h]), "bitmaps and inode table do not cover a superblock/GDT copy")
 				}
 			}
 		}
 		// (3) pairwise disjoint
-		overlap += b2u(c05Disjoint(bb[g], ib[g])) + b2u(c05Disjoint(bb[g], it[g])) + b2u(c05Disjoint(ib[g], it[g]))
+		vp.AssertUnless("KF-C05-2", !fits, c05Disjoint(bb[g], ib[g]), "block bitmap / inode bitmap disjoint")
+		vp.AssertUnless("KF-C05-2", !fits, c05Disjoint(bb[g], it[g]), "block bitmap / inode table disjoint")
+		vp.AssertUnless("KF-C05-2", !fits, c05Disjoint(ib[g], it[g]), "inode bitmap / inode table disjoint")
 		for h := g + 1; h < groups; h++ {
 			for _, r := range []c05Region{bb[g], ib[g], it[g]} {
 				for _, q := range []c05Region{bb[h], ib[h], it[h]} {
-					overlap += b2u(c05Disjoint(r, q))
+					vp.AssertUnless("KF-C05-2", !fits, c05Disjoint(r, q), "metadata of different groups disjoint")
 				}
 			}
 		}
-		vp.AssertUnless("KF-C05-2", !fits, outside == 0, "bitmaps and inode table lie inside the filesystem")
-		vp.AssertUnless("KF-C05-2", !fits, foreign == 0, "without flex_bg bitmaps and inode table lie in their own group")
-		vp.AssertUnless("KF-C05-2", !fits, onBackup == 0, "bitmaps and inode table do not cover a superblock/GDT copy")
-		vp.AssertUnless("KF-C05-2", !fits, overlap == 0, "bitmaps and inode tables of all groups are pairwise disjoint")
-		// (5) free count = blocks of the group minus the metadata blocks lying in it
+	}
+	// (5) free count = blocks of the group minus the metadata blocks lying in it
+	for g := 0; g < groups; g++ {
+		d := gdt.descriptors[g]
 		used := c05Overlap(backup[g], groupReg[g])
-		for h := 0; h < groups; h++ {
-			used += c05Overlap(bb[h], groupReg[g]) + c05Overlap(ib[h], groupReg[g]) + c05Overlap(it[h], groupReg[g])
+		if flexSize == 0 {
+			// own-group placement was asserted above
+			used += 2 + itb
+		} else {
+			for h := 0; h < groups; h++ {
+				used += c05Overlap(bb[h], groupReg[g]) + c05Overlap(ib[h], groupReg[g]) + c05Overlap(it[h], groupReg[g])
+			}
 		}
 		vp.AssertUnless("KF-C05-2", !fits, uint64(d.freeBlocks)+used == groupReg[g].hi-groupReg[g].lo,
 			"free blocks of the group = its blocks minus the metadata blocks lying in it")
@@ -230,30 +236,31 @@ func c05Layout(bs uint32, flexSize uint64, gdSize uint16, groups int) {
 	}
 }
 
-// 1 KiB blocks (firstDataBlock = 1)
-func VP_C05_layout_1k_noflex_g1() { c05Layout(1024, 0, 64, 1) }
-func VP_C05_layout_1k_noflex_g2() { c05Layout(1024, 0, 64, 2) }
-func VP_C05_layout_1k_noflex_g3() { c05Layout(1024, 0, 64, 3) }
-func VP_C05_layout_1k_noflex_g4() { c05Layout(1024, 0, 32, 4) }
-func VP_C05_layout_1k_flex8_g1()  { c05Layout(1024, 8, 64, 1) }
-func VP_C05_layout_1k_flex8_g2()  { c05Layout(1024, 8, 64, 2) }
-func VP_C05_layout_1k_flex8_g3()  { c05Layout(1024, 8, 64, 3) }
-func VP_C05_layout_1k_flex2_g4()  { c05Layout(1024, 2, 64, 4) }
-func VP_C05_layout_1k_flex2_g5() {
+func c05LayoutThorough(bs, bpg uint32, flexSize uint64, gdSize uint16, groups int) {
 	if vp.Thorough() {
-		c05Layout(1024, 2, 64, 5)
-	}
-}
-func VP_C05_layout_1k_flex4_g5() {
-	if vp.Thorough() {
-		c05Layout(1024, 4, 32, 5)
+		c05Layout(bs, bpg, flexSize, gdSize, groups)
 	}
 }
 
-// 4 KiB blocks (firstDataBlock = 0)
-func VP_C05_layout_4k_noflex_g2() { c05Layout(4096, 0, 64, 2) }
-func VP_C05_layout_4k_noflex_g4() { c05Layout(4096, 0, 64, 4) }
-func VP_C05_layout_4k_flex8_g3()  { c05Layout(4096, 8, 64, 3) }
-func VP_C05_layout_4k_flex2_g4()  { c05Layout(4096, 2, 32, 4) }
-func VP_C05_layout_2k_flex4_g4()  { c05Layout(2048, 4, 64, 4) }
-func VP_C05_layout_64k_flex8_g2() { c05Layout(65536, 8, 64, 2) }
+// 1 KiB blocks (firstDataBlock = 1), smallest and largest group size
+func VP_C05_layout_1k_b256_noflex_g1()  { c05Layout(1024, 256, 0, 64, 1) }
+func VP_C05_layout_1k_b256_noflex_g2()  { c05Layout(1024, 256, 0, 64, 2) }
+func VP_C05_layout_1k_b256_noflex_g3()  { c05Layout(1024, 256, 0, 32, 3) }
+func VP_C05_layout_1k_b256_flex8_g2()   { c05Layout(1024, 256, 8, 64, 2) }
+func VP_C05_layout_1k_b256_flex2_g3()   { c05Layout(1024, 256, 2, 64, 3) }
+func VP_C05_layout_1k_b8192_noflex_g2() { c05Layout(1024, 8192, 0, 64, 2) }
+func VP_C05_layout_1k_b8192_flex8_g1()  { c05Layout(1024, 8192, 8, 64, 1) }
+func VP_C05_layout_1k_b8192_flex8_g3()  { c05Layout(1024, 8192, 8, 64, 3) }
+func VP_C05_layout_1k_b1000_noflex_g2() { c05Layout(1024, 1000, 0, 64, 2) }
+func VP_C05_layout_1k_b256_noflex_g4()  { c05LayoutThorough(1024, 256, 0, 64, 4) }
+func VP_C05_layout_1k_b8192_flex2_g4()  { c05LayoutThorough(1024, 8192, 2, 64, 4) }
+func VP_C05_layout_1k_b4088_flex2_g5()  { c05LayoutThorough(1024, 4088, 2, 64, 5) }
+func VP_C05_layout_1k_b256_flex4_g5()   { c05LayoutThorough(1024, 256, 4, 32, 5) }
+
+// larger blocks (firstDataBlock = 0)
+func VP_C05_layout_4k_b32768_noflex_g2() { c05Layout(4096, 32768, 0, 64, 2) }
+func VP_C05_layout_4k_b32768_flex8_g3()  { c05Layout(4096, 32768, 8, 64, 3) }
+func VP_C05_layout_4k_b256_flex2_g3()    { c05Layout(4096, 256, 2, 32, 3) }
+func VP_C05_layout_4k_b32768_noflex_g4() { c05LayoutThorough(4096, 32768, 0, 64, 4) }
+func VP_C05_layout_2k_b16384_flex4_g4()  { c05LayoutThorough(2048, 16384, 4, 64, 4) }
+func VP_C05_layout_64k_b65528_flex8_g2() { c05Layout(65536, 65528, 8, 64, 2) }
